@@ -42,6 +42,10 @@ const Property* find_property(const std::string& id)
 
 using namespace sim;
 
+#ifndef SIM_FLAVOUR
+#define SIM_FLAVOUR "plain"
+#endif
+
 static volatile long long g_cur_index = -1;
 static char g_cur_prop[16] = "";
 
@@ -226,6 +230,7 @@ static std::string write_replay(const Violation& v, const Plan& minimal, int rer
     doc.set("detail", v.detail);
     doc.set("seed", js::Value(int64_t(v.plan.seed)));
     doc.set("index", js::Value(v.plan.index));
+    doc.set("flavour", SIM_FLAVOUR);
     doc.set("shrink_reruns", reruns);
     doc.set("history_hash", js::Value(int64_t(hash & 0x7fffffffffffffffull)));
     doc.set("plan", to_json(minimal));
